@@ -60,6 +60,38 @@ theorem report_roundtrip (rs : List (String × Entry))
       rs.map (fun ne => fieldTexts ne.1 ne.2) := by
   rw [report_lines rs h, List.dropLast_concat, report_blocks]
 
+/-- 6. on well-formed values (`WFVal`, defined in `CR/Lemmas/Report.lean`: strings are printable
+ASCII without `'`, `\`, `,`, `[`, `]`, newline; float texts are non-empty, contain none of
+`, [ ] '` nor a space, and are not the text of `None`/`True`/`False`/an int; lists of well-formed
+values, arbitrarily nested) the printed text determines the value -/
+theorem renderVal_injective (a b : RVal) (wa : WFVal a) (wb : WFVal b)
+    (h : renderVal a = renderVal b) : a = b :=
+  renderVal_inj a b wa wb h
+
+/-- 6'. hence two entries of well-formed values whose blocks have the same field texts are equal
+field by field (name, message and time are printed verbatim) -/
+theorem fieldTexts_injective (n n' : String) (e e' : Entry)
+    (w : WFVal e.nStates ∧ WFVal e.nTransitions ∧ WFVal e.itReach ∧ WFVal e.itRew ∧
+      WFVal e.reachStrat ∧ WFVal e.finalStrat ∧ WFVal e.probabilities ∧ WFVal e.probMinRew ∧
+      WFVal e.rewards ∧ WFVal e.rewMinReach)
+    (w' : WFVal e'.nStates ∧ WFVal e'.nTransitions ∧ WFVal e'.itReach ∧ WFVal e'.itRew ∧
+      WFVal e'.reachStrat ∧ WFVal e'.finalStrat ∧ WFVal e'.probabilities ∧ WFVal e'.probMinRew ∧
+      WFVal e'.rewards ∧ WFVal e'.rewMinReach)
+    (h : fieldTexts n e = fieldTexts n' e') : n = n' ∧ e = e' := by
+  obtain ⟨a1, a2, a3, a4, a5, a6, a7, a8, a9, a10⟩ := w
+  obtain ⟨b1, b2, b3, b4, b5, b6, b7, b8, b9, b10⟩ := w'
+  simp only [fieldTexts, List.cons.injEq, and_true] at h
+  obtain ⟨hn, hm, h1, h2, h3, h4, h5, h6, hq, h7, h8, h9, h10, ht⟩ := h
+  refine ⟨hn, ?_⟩
+  cases e; cases e'
+  simp only [Entry.mk.injEq]
+  simp only at *
+  refine ⟨hm, renderVal_inj _ _ a1 b1 h1, renderVal_inj _ _ a2 b2 h2, renderVal_inj _ _ a3 b3 h3,
+    renderVal_inj _ _ a4 b4 h4, renderVal_inj _ _ a5 b5 h5, renderVal_inj _ _ a6 b6 h6,
+    boolText_inj hq,
+    renderVal_inj _ _ a7 b7 h7, renderVal_inj _ _ a8 b8 h8, renderVal_inj _ _ a9 b9 h9,
+    renderVal_inj _ _ a10 b10 h10, ht⟩
+
 /-- 7. the report is named after the input file: directory dropped, extension replaced -/
 theorem outname_stem (d stem : String) (h1 : '/' ∉ stem.toList) (h2 : '.' ∉ stem.toList) :
     outName (d ++ "/" ++ stem ++ ".py") = "outputs/" ++ stem ++ ".txt" :=
@@ -139,5 +171,22 @@ example : readBlocks (exRun.flatMap (fun ne => blockLines ne.1 ne.2)) =
 example : (renderReport exRun).splitOn "\n" =
     exRun.flatMap (fun ne => blockLines ne.1 ne.2) ++ [""] :=
   report_lines exRun (by decide)
+
+/-- the example values are well-formed (so `renderVal_injective` applies to them) -/
+example : WFVal exSolved.reachStrat :=
+  ⟨trivial, ⟨(by decide : StrOK "a"), (by decide : StrOK "b"), trivial⟩, trivial, trivial⟩
+
+example : WFVal exSolved.rewards :=
+  ⟨floatOK_of_floatMark (by decide), floatOK_of_floatMark (by decide),
+    floatOK_of_floatMark (by decide), trivial⟩
+
+example : WFVal (.float "1e-05") ∧ WFVal (.float "-inf") ∧ WFVal (.float "nan") :=
+  ⟨floatOK_of_floatMark (by decide), floatOK_of_floatMark (by decide),
+    floatOK_of_floatMark (by decide)⟩
+
+/-- outside the domain the text is ambiguous: a float atom spelled like an int, or a string
+containing the list separator -/
+example : renderVal (.float "3") = renderVal (.int 3) := by decide
+example : renderVal (.list [.str "a', 'b"]) = renderVal (.list [.str "a", .str "b"]) := by decide
 
 end CR.C16
